@@ -4,7 +4,7 @@
 //! buffer) at quiescence after every repetition.
 //!
 //!   alloc_probe <shape> <order> <threads> <reps> <seed> [own|handoff]
-//!   alloc_probe steady <chunk> <mix> <policy> <primer> <delta> <threads> <reps> <seed>
+//!   alloc_probe steady <chunk> <mix> <policy> <primer> <delta> <threads> <reps> <seed> [align]
 //!       bounded live set replaced object by object (see workload.rs); VmSize sampled with the live set full
 //!       (thread 0 samples while the other threads keep running) and after every repetition
 //! output:  B <baseline pages> / R <index> <pages> <failed calls> / S <peak live bytes> <bytes churned> <calls>
@@ -40,15 +40,16 @@ fn steady_main(baseline: u64, args: &mut dyn Iterator<Item = &'static str>) -> i
     let threads = parse(args.next()).max(1) as usize;
     let reps = parse(args.next()).max(1);
     let seed = parse(args.next());
+    let align = (parse(args.next()) as usize).max(8);
     let (Some(policy), Some(primer)) = (policy, primer) else {
         tiny_std::println!("E bad arguments");
         return 2;
     };
-    if chunk < 32 || chunk % 16 != 0 {
+    if chunk < 32 || chunk % 16 != 0 || !align.is_power_of_two() {
         tiny_std::println!("E bad chunk");
         return 2;
     }
-    let p = Steady { chunk, mix, policy, primer: primer as u8, delta, live: steady_live(chunk), steps: steady_steps(chunk) };
+    let p = Steady { chunk, mix, align, policy, primer: primer as u8, delta, live: steady_live(chunk), steps: steady_steps(chunk) };
     tiny_std::println!("B {}", baseline);
     marker::begin(4, 1, 0);
     let mut total = RepStats::default();
@@ -142,6 +143,57 @@ fn vmsize_pages() -> u64 {
     v
 }
 
+macro_rules! rec {
+    ($name:ident, $n:literal) => {
+        #[repr(align($n))]
+        #[derive(Copy, Clone)]
+        struct $name([u8; $n]);
+    };
+}
+rec!(R32, 32);
+rec!(R64, 64);
+rec!(R128, 128);
+rec!(R4096, 4096);
+
+/// Vec growth (realloc with an over-aligned Layout), shrink_to_fit, growth again, drop
+fn vec_cycle<T: Copy>(proto: T, n: usize, st: &mut RepStats) {
+    let sz = core::mem::size_of::<T>();
+    let mut v: Vec<T> = Vec::new();
+    for _ in 0..n {
+        v.push(proto);
+    }
+    st.peak_live = st.peak_live.max(v.capacity() * sz * 3 / 2);
+    v.truncate(n - n / 3);
+    v.shrink_to_fit();
+    for _ in 0..n / 8 {
+        v.push(proto);
+    }
+    v.shrink_to(v.len() + 3);
+    st.calls += 40;
+    st.churned += 3 * n * sz;
+    core::hint::black_box(&v);
+}
+fn vec_rep(seed: u64, share: usize, st: &mut RepStats) {
+    let k = (seed % 5) as usize;
+    vec_cycle(R64([1; 64]), (2048 + 37 * k) / share, st);
+    vec_cycle(R32([2; 32]), (3000 + 11 * k) / share, st);
+    vec_cycle(R128([3; 128]), (1024 + 5 * k) / share, st);
+    vec_cycle(R4096([4; 4096]), (96 + k) / share, st);
+    // two vectors growing in turns, so that neither can grow in place
+    let mut a: Vec<R64> = Vec::new();
+    let mut b: Vec<R128> = Vec::new();
+    for i in 0..(1500 / share) {
+        a.push(R64([5; 64]));
+        if i % 2 == 0 {
+            b.push(R128([6; 128]));
+        }
+    }
+    st.peak_live = st.peak_live.max(a.capacity() * 64 * 3 / 2 + b.capacity() * 128 * 3 / 2);
+    a.shrink_to_fit();
+    b.shrink_to_fit();
+    core::hint::black_box((&a, &b));
+}
+
 struct Slots(Vec<Slot>);
 unsafe impl Send for Slots {}
 
@@ -173,7 +225,33 @@ pub fn main() -> i32 {
     for rep in 0..reps {
         let mut st = RepStats::default();
         let order_seed = seed ^ rep.wrapping_mul(0x9E37_79B9);
-        if threads == 1 {
+        if shape == Shape::VecAligned {
+            if threads == 1 {
+                vec_rep(seed, 1, &mut st);
+            } else {
+                let mut handles = Vec::with_capacity(threads);
+                for t in 0..threads {
+                    match tiny_std::thread::spawn(move || {
+                        let mut st = RepStats::default();
+                        vec_rep(seed.wrapping_add(t as u64), threads, &mut st);
+                        st
+                    }) {
+                        Ok(h) => handles.push(h),
+                        Err(_) => st.failed += 1,
+                    }
+                }
+                for h in handles {
+                    match h.join() {
+                        Some(s) => {
+                            st.peak_live += s.peak_live;
+                            st.churned += s.churned;
+                            st.calls += s.calls;
+                        }
+                        None => st.failed += 1,
+                    }
+                }
+            }
+        } else if threads == 1 {
             let plan = plan(shape, seed, 1);
             let mut slots: Vec<Slot> = Vec::new();
             unsafe {
